@@ -898,11 +898,17 @@ class PTable(EngineBase):
             for o in got:
                 if id(o) not in st["obj_inc"]:
                     inc = None
+                    owners = set()
                     for a in acc:
-                        if a[3] == "read" and a[4] == "/proc/%d/stat" % o.pid:
+                        if a[5] == o.pid and a[8]:
+                            owners.add(a[6])
+                        if inc is None and a[3] == "read" and \
+                                a[4] == "/proc/%d/stat" % o.pid:
                             inc = a[6]
-                            break
-                    st["obj_inc"][id(o)] = (o, inc)
+                    # built while the PID changed hands: which process the
+                    # object stands for is undefined -> treated as stale
+                    st["obj_inc"][id(o)] = (o, inc if len(owners) <= 1
+                                            else -1)
             # identity across successive complete iterations
             now_ids = {p.pid: p for p in got}
             if mode == "complete" and not overlapping:
